@@ -90,11 +90,14 @@ func (c14) Exec(r *kit.Run) {
 		var op c14Op
 		if created < nI && (created < 2 || g.Choose(6) == 0) {
 			op = c14Op{I: created, Op: "new"}
+			if g.Choose(2) == 0 {
+				op.Arg = "nil-input" // prolog.New(nil, w): a very common way to create an interpreter
+			}
 			created++
 		} else {
 			op.I = g.Choose(created)
-			kinds := []string{"assert", "retract", "op", "flag", "conv", "consult", "write-user", "write-cur", "out-alt", "out-user", "intern", "cur-open", "cur-step", "cur-close"}
-			op.Op = kinds[g.Weighted(5, 2, 5, 4, 3, 2, 4, 4, 1, 1, 2, 2, 5, 1)]
+			kinds := []string{"assert", "retract", "op", "flag", "conv", "consult", "write-user", "write-cur", "out-alt", "out-user", "intern", "cur-open", "cur-step", "cur-close", "read-input", "cur-open-flags"}
+			op.Op = kinds[g.Weighted(5, 2, 5, 4, 3, 2, 4, 4, 1, 1, 2, 2, 6, 1, 2, 2)]
 			switch op.Op {
 			case "assert":
 				op.Arg = fmt.Sprintf("t%d", n)
@@ -135,6 +138,8 @@ func (c14) Exec(r *kit.Run) {
 		snapshot []string
 		started  bool
 		pos      int
+		flags    map[string]string // enumeration of current_prolog_flag/2: the interpreter's flags when it was called
+		stale    bool              // ... its interpreter's flags changed since: nothing is asserted any more
 	}
 	var cursors []*cursor
 	defer func() {
@@ -160,13 +165,43 @@ func (c14) Exec(r *kit.Run) {
 		}
 		return v.String(), nil
 	}
+	// model-free isolation oracle: an operation on interpreter i must not change any observation of another interpreter j
+	fingerprint := func(it *c14Interp) string {
+		var parts []string
+		for _, q := range []string{
+			"stream_property(St, alias(user_output)), stream_property(St, position(P))",
+			"stream_property(St, alias(user_input)), stream_property(St, position(P)), stream_property(St, end_of_stream(E))",
+			"findall(A, stream_property(_, alias(A)), Tmp), sort(Tmp, L)",
+			"current_prolog_flag(double_quotes, A), current_prolog_flag(unknown, B), current_prolog_flag(char_conversion, C), current_prolog_flag(debug, D)",
+			"findall(X, fact(X), L)",
+			"current_char_conversion('α', A), current_char_conversion('β', B), current_char_conversion('γ', C)",
+			"catch(findall(X, who(X), L), _, L = none)",
+			"findall(P-S-N, current_op(P, S, N), Tmp), length(Tmp, N)", // (the list itself is in map order: only its length)
+		} {
+			got, err := ask(it, q)
+			// (variables bound to streams print as <stream>; S = _ keeps them out anyway)
+			parts = append(parts, got+"/"+kit.CanonErr(err))
+		}
+		return strings.Join(parts, " | ") + fmt.Sprintf(" | sinks %q %q", it.out.Sink, it.alt.Sink)
+	}
 	for n, op := range ops {
 		if r.Failed() {
 			return
 		}
+		fpJ, fpBefore := -1, ""
+		if op.Op != "new" && len(its) > 1 && n%4 == 0 {
+			fpJ = (op.I + 1 + n/4%(len(its)-1)) % len(its)
+			if fpJ != op.I {
+				fpBefore = fingerprint(its[fpJ])
+			}
+		}
 		if op.Op == "new" {
 			it := &c14Interp{out: &kit.SimWriter{Run: r}, alt: &kit.SimWriter{Run: r}}
-			it.p = prolog.New(strings.NewReader(""), it.out)
+			if op.Arg == "nil-input" {
+				it.p = prolog.New(nil, it.out)
+			} else {
+				it.p = prolog.New(strings.NewReader("abc"), it.out)
+			}
 			fsys := kit.NewSimFS(r, r.Tape.Lane("dev:fs"))
 			fsys.Files["lib.pl"] = []byte(fmt.Sprintf("who(i%d).\nshared(common).\n", op.I))
 			it.p.FS = fsys
@@ -231,6 +266,11 @@ func (c14) Exec(r *kit.Run) {
 				goal = fmt.Sprintf("set_prolog_flag(%s, %s)", op.Arg, op.Arg2)
 				m.flags[op.Arg] = op.Arg2
 				mark("flags", op.I)
+				for _, c := range cursors {
+					if c.i == op.I && c.started {
+						c.stale = true
+					}
+				}
 			case "conv":
 				goal = fmt.Sprintf("char_conversion('%s', '%s')", op.Arg, op.Arg2)
 				if op.Arg == op.Arg2 {
@@ -263,6 +303,18 @@ func (c14) Exec(r *kit.Run) {
 				m.useAlt = false
 			case "intern":
 				goal = fmt.Sprintf("atom_concat(i%d_, %s, A), atom_length(A, N), copy_term(f(X, Y, X), C), length(L, 3)", op.I, op.Arg)
+			case "read-input":
+				goal = "catch(get_char(_), _, true)" // whatever it delivers (nothing is asserted): only its effect on OTHER interpreters matters
+			case "cur-open-flags":
+				if len(cursors) < 3 {
+					sols, err := it.p.Query("current_prolog_flag(F, X).")
+					if err != nil {
+						kit.Bug("c14 cursor: %v", err)
+					}
+					cursors = append(cursors, &cursor{i: op.I, sols: sols, flags: map[string]string{}})
+					r.Logf("%d interpreter %d: open enumeration %d of current_prolog_flag/2", n, op.I, len(cursors)-1)
+				}
+				goal = "true"
 			case "cur-open":
 				if len(cursors) < 3 {
 					sols, err := it.p.Query("fact(X).")
@@ -288,6 +340,24 @@ func (c14) Exec(r *kit.Run) {
 				if !c.started {
 					c.started = true
 					c.snapshot = append([]string(nil), its[c.i].m.facts...) // the goal is called now: it sees the clauses of now
+					for k, v := range its[c.i].m.flags {
+						if c.flags != nil {
+							c.flags[k] = v
+						}
+					}
+				}
+				if c.flags != nil {
+					// enumeration of flags: every answer about one of the changeable flags must be this interpreter's value
+					if c.sols.Next() && !c.stale {
+						v := kit.NewVars()
+						c.sols.Scan(v)
+						if want, ok := c.flags[v.Get("F")]; ok && want != v.Get("X") {
+							c14Fail(r, changed, "flags", c14Op{J: c.i}, its, fmt.Sprintf("an open enumeration of current_prolog_flag/2 answered %s = %s; this interpreter's value is %s", v.Get("F"), v.Get("X"), want))
+							return
+						}
+						r.Probe("flag-enumeration-stepped-between-other-interpreters-operations")
+					}
+					break
 				}
 				ok := c.sols.Next()
 				got := "<end>"
@@ -317,6 +387,13 @@ func (c14) Exec(r *kit.Run) {
 				r.Fail("wrong-answer", "operation-result:"+op.Op, "interpreter %d: %s returned %s (expected an error: %s)", op.I, goal, kit.CanonErr(err), mustErr)
 				return
 			}
+		}
+		if fpBefore != "" {
+			if after := fingerprint(its[fpJ]); after != fpBefore {
+				r.Fail("leak", "operation-on-one-interpreter-changed-another:"+op.Op, "after an operation (%s) on interpreter %d the observations of interpreter %d changed:\n  before: %s\n  after:  %s", op.Op, op.I, fpJ, fpBefore, after)
+				return
+			}
+			r.Probe("isolation-fingerprint-compared")
 		}
 		// observe interpreter J
 		if op.J >= len(its) {
